@@ -4,7 +4,7 @@ use proc_macro2::{Span, TokenStream};
 use quote::{format_ident, quote, ToTokens};
 use structmeta::{Flag, NameArgs, NameValue, Parse, StructMeta};
 use syn::{
-    parse::Parse, parse2, parse_quote, spanned::Spanned, token, Attribute, Data, DataEnum,
+    ext::IdentExt, parse::Parse, parse2, parse_quote, spanned::Spanned, token, Attribute, Data, DataEnum,
     DataStruct, DeriveInput, Error, Expr, ExprLit, Field, Fields, Ident, Index, ItemEnum,
     ItemStruct, Lit, Meta, Path, Result, Type, Variant,
 };
@@ -603,18 +603,23 @@ fn build_debug_expr(
             true => quote!(debug_struct),
             false => quote!(debug_tuple),
         };
-        expr.extend(quote!(__f.#debug_x(::core::stringify!(#ident))));
+        // like the standard derive, print raw identifiers without the `r#` prefix
+        let name = ident.unraw().to_string();
+        expr.extend(quote!(__f.#debug_x(#name)));
         let mut uses_field = false;
         for field in fields {
             if !field.hattrs.is_debug_ignore() {
                 let e = to_expr(field);
-                let member = field.member();
+                let member = match &field.field.ident {
+                    Some(ident) => ident.unraw().to_string(),
+                    None => field.index.to_string(),
+                };
                 // A reference to the field reference is `Sized` even if the field is not. It is
                 // turned into `&dyn Debug` by a helper so that the only obligation at this point is
                 // `FieldType: Debug`, exactly what the where-clause provides.
                 uses_field = true;
                 expr.extend(match is_named {
-                    true => quote! (.field(::core::stringify!(#member), __derive_ex_debug_ref(&#e))),
+                    true => quote! (.field(#member, __derive_ex_debug_ref(&#e))),
                     false => quote! (.field(__derive_ex_debug_ref(&#e))),
                 });
                 field.push_bounds_to(use_bounds, kind, wcb);
